@@ -3,6 +3,6 @@
 wt="$1"; k="$2"; name="$3"; shift 3
 d=/verif/seeded/$name; mkdir -p "$d"
 cp "$wt/patch$k.diff" "$d/patch.diff"; cp "$wt/demo$k.py" "$d/demo.py"
-sed -i '/assert .*__file__.*startswith("\/tmp\/wt/d; /assert .*startswith("\/tmp\/wt/d' "$d/demo.py"
+sed -i "/assert .*\/tmp\/wt/d" "$d/demo.py"
 grep -n "/tmp/wt" "$d/demo.py" | head -5
 /verif/tools/confirm_seed.sh "$d" "$@" 2>&1 | grep -E "^demo|^baseline|tier=|VIOLATION lines|PATCH" | cut -c1-250
